@@ -146,6 +146,7 @@ P = {
   technique="field-coverage lint + decision table over the abstract flag domain + printer/grammar literal agreement"),
 "C13": dict(
   decided={
+    "C18.i": "ModelRepository.remove_model, evaluated on a three-entry repository (two files and a string model under a synthetic key): removing a stored model removes exactly its entry wherever it sits; a model that is not stored changes nothing",
     "C13.e": "the test that gates the descent of the processor walk looks the object's class up by its qualified name (_tx_fqn), the key under which every namespace of the meta-model is searched, not by the simple class name",
     "C13.a": "call_obj_processors recurses before processing (children first), own-rule processor before grammar-rule processor; in parse_tree_to_objgraph processors run after the resolution loop, the unresolved check and _end_model_construction of all models",
     "C13.b": "list branch and scalar branch both store a non-None processor result back",
@@ -172,6 +173,8 @@ P = {
   technique="obligation ledger over normal + exceptional CFG exits through the call graph"),
 "C15": dict(
   decided={
+    "C18.i": "ModelRepository.remove_model, evaluated on a three-entry repository (two files and a string model under a synthetic key): removing a stored model removes exactly its entry wherever it sits; a model that is not stored changes nothing",
+    "C18.h": "entries leave a repository only through ModelRepository.remove_model (identity scan): no other function deletes from filename_to_model",
     "C15.i": "releasing the per-object records, evaluated on a sample (records {1,2,9}, ids [1,2] recorded by this parser): exactly the parser's own records are removed, finished or not, and no others",
     "C15.h": "_abandon_user_objects restores the classes and releases the per-object records for every abandoned model that has a parser; the two calls depend on nothing else (not on the parser's 'replaced' flag)",
     "C14.i": "(shared with C14) restore is idempotent per parser: the 'replaced' flag is cleared before any nesting counter is decremented, on every path and unconditionally (a repeated restore for the same parser does nothing)",
@@ -199,6 +202,9 @@ P = {
   technique="who-may-call check + __init__/clone container table agreement"),
 "C17": dict(
   decided={
+    "C18.i": "ModelRepository.remove_model, evaluated on a three-entry repository (two files and a string model under a synthetic key): removing a stored model removes exactly its entry wherever it sits; a model that is not stored changes nothing",
+    "C17.j": "cross-file lookup goes through local_models: outside the repository module and metamodel.py, all_models is only handed to the GlobalModelRepository constructor (shared store), never iterated or searched",
+    "C17.k": "every file matched by an import pattern is appended to the import's result list (no skip condition in the loop)",
     "C17.i": "every model gets a repository object of its own: each store into <model>._tx_model_repository binds a GlobalModelRepository constructed there (only all_models is shared through the constructor)",
     "C18.b": "(shared with C18) cleanup of an abandoned load removes only models still under construction: finished models stay cached",
     "C17.a": "the model is registered (pre_ref_resolution_callback) before any referenced model is loaded (cycle cut)",
@@ -214,6 +220,8 @@ P = {
   technique="CFG dominance + decision table + key-normalisation dataflow"),
 "C18": dict(
   decided={
+    "C18.i": "ModelRepository.remove_model, evaluated on a three-entry repository (two files and a string model under a synthetic key): removing a stored model removes exactly its entry wherever it sits; a model that is not stored changes nothing",
+    "C18.h": "entries leave a repository only through ModelRepository.remove_model (identity scan): no other function deletes from filename_to_model",
     "C15.i": "releasing the per-object records, evaluated on a sample (records {1,2,9}, ids [1,2] recorded by this parser): exactly the parser's own records are removed, finished or not, and no others",
     "C18.a": "obligation O3: from each registration of a model in a repository, every may-raise statement up to the public entry lies under a handler that removes the models of this attempt from both repositories",
     "C18.b": "only models carrying the construction marker are removed (earlier cached models stay)",
@@ -388,6 +396,7 @@ GENERAL = {
     "M": "(general) memo keys: wherever a computation is skipped because a key was seen before (dict / set / attribute used as a memo), every input of the skipped computation that can vary during the memo's lifetime is determined by the key",
     "O": "(general) every metamodel option is stored verbatim from the constructor parameter of the same name and read under that name",
     "P": "(general) navigation through an attribute named at run time (RREL steps, dotted paths): every use of getattr(obj, name)'s value lies where needs_to_be_resolved(obj, name) is known false",
+    "I": "(general) a local bound to a one-shot iterator (filter, map, zip, iter, reversed, enumerate, generator expression) has at most one use and none inside a loop",
     "F": "(general) pass-through parameters: a function that takes a parameter p (or **kwargs) and calls a function or class of the code base that takes p (or **kwargs) hands it on, by keyword, position or **kwargs (two reasoned exceptions)",
     "V": "(general) record classes on this property's path (ObjCrossRef, RefRulePosition, TextXError and its subclasses) store every constructor parameter under its own name and unchanged; exception subclasses hand every location field to the base constructor under the base's name",
     "S": "(general) objects built per occurrence by the grammar / RREL compilers (parsing expressions, RREL nodes, scope providers) are never shallow-copied and never handed out again from a cache (no setdefault interning, no dict or class-attribute store of a freshly built one that is read back)",
